@@ -215,13 +215,13 @@ PROPS = {
     "C15": dict(
         bin="c15",
         quick=NATIVE_QR, thorough=NATIVE_T,
-        floors={"isnone_laws_ok": 100, "numeric_casts_ok": 500, "time_null_casts_ok": 30, "time_value_casts_ok": 20, "bool_casts_ok": 10,
+        floors={"isnone_laws_ok": 100, "numeric_casts_ok": 500, "time_null_casts_ok": 30, "time_value_casts_ok": 20, "bool_casts_ok": 10, "string_casts_ok": 20,
                 "order_axioms_checked.f64": 2, "order_axioms_checked.Option<i32>": 2, "none_is_none_ok": 10},
         technique="runtime monitoring: exhaustive execution of the real impls over a finite value pool with law checkers (null predicates, cast algebra, order axioms)",
         rule="finite pool, enumerated completely by one process: IsNone laws for 26 types (f32, f64, 6 integer types, bool, their Options, "
              "String, &str, DateTime<ns/s>, TimeDelta, Time); the 8x8 numeric cast lattice in the four Option combinations over 9-20 "
-             "values per source type (0, +-1, extremes, NaN, +-inf, subnormals) against the language's `as` conversion; bool / String "
-             "casts; null preservation to / from the 6 time types; sort_cmp / sort_cmp_rev on all triples of 10 pools (antisymmetry, "
+             "values per source type (0, +-1, extremes, NaN, +-inf, subnormals) against the language's `as` conversion; bool, "
+             "Option<bool> and String / &str casts in both directions incl. the null string \"None\" into float and time targets; null preservation to / from the 6 time types; sort_cmp / sort_cmp_rev on all triples of 10 pools (antisymmetry, "
              "transitivity, nulls last, value order). Canonical nulls only (DESIGN 5.4). distinct = (law family, type(s), value)",
         exhaustive=True,
     ),
